@@ -16,7 +16,7 @@ FUNCTIONS = ["gcmpy.distributions.exponential.exponential", "gcmpy.distributions
              "gcmpy.distributions.scale_free_cut_off.scale_free_cut_off (polylog)"]
 STUBS = ["numpy.exp / real powers -> uninterpreted EXP / POW with instantiated axioms (symx/uf.py)"]
 BOUNDS = {
-    "quick": "parameters a>0, mean>0, alpha>=2, kappa>0 symbolic; k in 0..6 (1..6 for the power laws); the truncation loop of zeta / polylog is unrolled by "
+    "quick": "a table of concrete int and float parameters (numeric comparison at 1e-9); parameters a>0, mean>0, alpha>=2, kappa>0 symbolic; k in 0..6 (1..6 for the power laws); the truncation loop of zeta / polylog is unrolled by "
              "forking up to K<=6 terms (paths needing more terms are cut: small alpha / large kappa)",
     "thorough": "k up to 9, truncation up to K<=10",
 }
@@ -36,6 +36,7 @@ def configs(tier):
     kmax, K = (6, 6) if q else (9, 10)
     return [{"name": "exponential", "kind": "exponential", "kmax": kmax}, {"name": "poisson", "kind": "poisson", "kmax": kmax},
             {"name": "power_law", "kind": "power_law", "kmax": kmax, "K": K}, {"name": "scale_free_cut_off", "kind": "cutoff", "kmax": kmax, "K": K},
+            {"name": "concrete-parameters", "kind": "concrete"},
             {"name": "scale_free_cut_off-second-factory", "kind": "cutoff", "kmax": 3, "K": 4, "second": True},
             {"name": "power_law-second-factory", "kind": "power_law", "kmax": 3, "K": 4, "second": True}]
 
@@ -93,7 +94,57 @@ def pow_axioms(ctx):
             ctx.assume_raw(z3.Implies(z3.And(x1 == x2, x1 > 0, b1 > 0, b1 < b2), p1 < p2))
 
 
+def path_concrete(ctx):
+    """plain numeric parameters of both Python number types (ints and floats): everything is concrete on this path"""
+    from gcmpy.distributions.exponential import exponential
+    from gcmpy.distributions.poisson import poisson
+    from gcmpy.distributions.power_law import power_law
+    from gcmpy.distributions.scale_free_cut_off import scale_free_cut_off
+
+    def rel(a, b):
+        return abs(a - b) <= 1e-9 * max(abs(a), abs(b), 1e-300)
+
+    for a in (0.5, 1, 2.5, 3):
+        p = ctx.guard("factory-raised", exponential, a)
+        bad = [k for k in range(0, 12) if not rel(float(ctx.guard("pmf-raised", p, k)), (1 - math.exp(-a)) * math.exp(-a * k))]
+        ctx.require(not bad, "concrete-parameters", f"exponential({a!r}) deviates at k={bad}", sig="concrete:exponential")
+    for m in (0.5, 1, 3, 7.25):
+        p = ctx.guard("factory-raised", poisson, m)
+        bad = [k for k in range(0, 15) if not rel(float(ctx.guard("pmf-raised", p, k)), math.exp(-m) * m ** k / math.factorial(k))]
+        ctx.require(not bad, "concrete-parameters", f"poisson({m!r}) deviates at k={bad}", sig="concrete:poisson")
+    for al in (2, 2.5, 3, 4, 4.0, 6):
+        p = ctx.guard("factory-raised", power_law, al)
+        C, j = 0.0, 1
+        while True:
+            t = 1.0 / float(j) ** float(al)
+            C += t
+            if t < 1e-6:
+                break
+            j += 1
+        bad = [k for k in (1, 2, 3, 5, 10, 40) if not rel(float(ctx.guard("pmf-raised", p, k)), float(k) ** -float(al) / C)]
+        tot = sum(float(p(k)) for k in range(1, j + 1))
+        ctx.require(not bad and abs(tot - 1) < 1e-9, "concrete-parameters", f"power_law({al!r}) deviates at k={bad}; sum over the truncated support = {tot}",
+                    sig="concrete:power_law")
+    for al, ka in ((2, 10), (2.5, 5.0), (3, 2), (4, 50), (2.0, 0.7)):
+        p = ctx.guard("factory-raised", scale_free_cut_off, al, ka)
+        z = math.exp(-1.0 / ka)
+        C, j, zk = 0.0, 1, z
+        while True:
+            t = zk / float(j) ** float(al)
+            C += t
+            if t < 1e-6:
+                break
+            zk *= z
+            j += 1
+        bad = [k for k in (1, 2, 3, 5, 10) if not rel(float(ctx.guard("pmf-raised", p, k)), float(k) ** -float(al) * math.exp(-k / ka) / C)]
+        tot = sum(float(p(k)) for k in range(1, j + 1))
+        ctx.require(not bad and abs(tot - 1) < 1e-9, "concrete-parameters", f"scale_free_cut_off({al!r},{ka!r}) deviates at k={bad}; sum = {tot}",
+                    sig="concrete:cutoff")
+
+
 def path(ctx, cfg):
+    if cfg["kind"] == "concrete":
+        return path_concrete(ctx)
     kind, kmax = cfg["kind"], cfg["kmax"]
     if kind == "exponential":
         from gcmpy.distributions.exponential import exponential
